@@ -84,13 +84,16 @@ pub struct Log {
 
 pub struct Shared {
     pub t0: Instant,
+    /// the `drop` steps end the TCP connection with a reset (SO_LINGER 0) instead of an orderly FIN: the client's
+    /// transport fails with an I/O error (ECONNRESET) instead of "connection closed without a closing handshake"
+    pub abortive: std::sync::atomic::AtomicBool,
     log: Mutex<Log>,
     notify: Notify,
 }
 
 impl Shared {
     pub fn new() -> Arc<Self> {
-        Arc::new(Self { t0: Instant::now(), log: Mutex::new(Log::default()), notify: Notify::new() })
+        Arc::new(Self { t0: Instant::now(), abortive: std::sync::atomic::AtomicBool::new(false), log: Mutex::new(Log::default()), notify: Notify::new() })
     }
     pub fn now_ms(&self) -> f64 {
         self.t0.elapsed().as_secs_f64() * 1000.0
@@ -259,6 +262,9 @@ async fn handle(mut stream: TcpStream, j: usize, beh: Option<Beh>, sh: Arc<Share
                 }
                 Beh::Drop => {
                     set(&|a, t| a.act_before_ms = Some(t));
+                    if sh.abortive.load(std::sync::atomic::Ordering::SeqCst) {
+                        let _ = ws.get_ref().set_linger(Some(Duration::ZERO));
+                    }
                     drop(ws);
                     set(&|a, t| a.act_after_ms = Some(t));
                 }
